@@ -30,6 +30,7 @@ type FnResult struct {
 	Contract *Contract
 	Err      string // engine error (contract does not resolve, unsupported construct...) -> function out of reach
 	Modes    Modes
+	Renamed  string // the renaming of local variables under which the contract was applied (rename.go), if any
 }
 
 func paramWF(g *Gen, t types.Type, n string, st *State, isRecv bool) string {
@@ -62,6 +63,44 @@ func (eng *Engine) verifyFunction(fn *ssa.Function, modes Modes) (res *FnResult)
 // verifyFunctionSpec verifies fn with some function-valued parameters bound to known top-level functions
 // (spec: parameter name -> function); the contract variant key[funcName] is used when it exists.
 func (eng *Engine) verifyFunctionSpec(fn *ssa.Function, modes Modes, spec map[string]*ssa.Function) (res *FnResult) {
+	res = eng.verifyFunctionWith(fn, modes, spec, nil)
+	if ct := res.Contract; ct != nil && !ct.Trusted {
+		gone := false
+		if res.Err == "" && len(ct.Cuts) > 0 {
+			lines := eng.sourceLinesOf(fn)
+			for _, cut := range ct.Cuts {
+				if !strings.HasPrefix(cut.Anchor, "call:") && !lines[anchorText(cut.Anchor)] {
+					gone = true
+				}
+			}
+		}
+		if strings.HasPrefix(res.Err, "contract error:") && unresolvedRe.MatchString(res.Err) || gone {
+			// a local variable the contract names may have been renamed (rename.go)
+			if alt := eng.inferRenaming(fn, modes, spec, ct, res.Err); alt != nil {
+				alt.Gen.note("contract applied with local variables renamed: %s", alt.Renamed)
+				return alt
+			}
+			// the clause that does not resolve may belong to a callee whose body is executed in place
+			if owner := eng.clauseOwner(res.Err); owner != nil && owner != fn {
+				if oct := eng.contractFor(owner); oct != nil && eng.ctOverride[shortFn(owner)] == nil {
+					if r := eng.inferRenaming(owner, modes, nil, oct, res.Err); r != nil && r.Contract != nil {
+						if eng.ctOverride == nil {
+							eng.ctOverride = map[string]*Contract{}
+						}
+						eng.ctOverride[shortFn(owner)] = r.Contract
+						res2 := eng.verifyFunctionWith(fn, modes, spec, nil)
+						res2.Gen.note("contract of %s applied with local variables renamed: %s", shortFn(owner), r.Renamed)
+						return res2
+					}
+				}
+			}
+		}
+	}
+	return res
+}
+
+// verifyFunctionWith: verifyFunctionSpec with the contract given (nil: the one declared for fn)
+func (eng *Engine) verifyFunctionWith(fn *ssa.Function, modes Modes, spec map[string]*ssa.Function, override *Contract) (res *FnResult) {
 	res = &FnResult{Fn: shortFn(fn), Modes: modes}
 	g := NewGen(eng, fn)
 	res.Gen = g
@@ -72,6 +111,9 @@ func (eng *Engine) verifyFunctionSpec(fn *ssa.Function, modes Modes, spec map[st
 		if v := eng.contracts[shortFn(fn)+"["+f.Name()+"]"]; v != nil {
 			ct = v
 		}
+	}
+	if override != nil {
+		ct = override
 	}
 	res.Contract = ct
 	g.topCt = ct
